@@ -40,7 +40,7 @@ ASSUMPTIONS = [
 
 def budget(tier):
     if tier == 'thorough':
-        return {'seeds': 250000, 'chunk': 200, 'wall_cap': 1500, 'extra': {'big': True}}
+        return {'seeds': 650000, 'chunk': 500, 'wall_cap': 1200, 'extra': {'big': True}}
     return {'seeds': 20000, 'chunk': 100, 'wall_cap': 240, 'extra': None}
 
 
